@@ -78,6 +78,7 @@ class RealLease:
         self.client._reset_internals()          # what connect() does first: creates the queues and the initial zero lease
         self.refused = set()
         self.keep = []
+        self.handles = {}         # rid -> what the application holds: the future (rr / fnf) or the subscriber (stream / channel)
         self.made = []            # request ids in the order the application made them
         self.leases = []          # (n, ttl, at) of every LEASE that arrived
         self.sent_log = []        # (rid, time, index of the current lease or -1)
@@ -93,14 +94,16 @@ class RealLease:
             with _running():
                 k = rid % 4
                 if k == 0:
-                    self.keep.append(self.client.request_response(p))
+                    self.handles[rid] = self.client.request_response(p)
                 elif k == 1:
-                    self.keep.append(self.client.fire_and_forget(p))
+                    self.handles[rid] = self.client.fire_and_forget(p)
                 else:
                     from reactivestreams.subscriber import DefaultSubscriber
                     pub = (self.client.request_stream(p) if k == 2 else self.client.request_channel(p)).initial_request_n(3)
-                    pub.subscribe(DefaultSubscriber())
+                    sub = DefaultSubscriber()
+                    self.handles[rid] = sub
                     self.keep.append(pub)
+                    pub.subscribe(sub)
         except asyncio.QueueFull:
             self.refused.add(rid)
         self._note_sent()
@@ -121,6 +124,21 @@ class RealLease:
             _drive(self.client.handle_lease(f))
         self._note_sent()
 
+    def act_on_held(self, rid):
+        """the application cancels / asks for more on an interaction whose request frame is still waiting for a lease"""
+        h = self.handles.get(rid)
+        with _running():
+            if rid % 4 == 0:
+                h.cancel()                                  # request-response: the caller gives up
+            elif rid % 4 == 1:
+                pass                                        # fire-and-forget: nothing the application can do to it
+            elif rid % 4 == 2:
+                h.subscription.request(2)                   # request-stream: more credit
+            else:
+                h.subscription.cancel()                     # request-channel: the requester cancels
+        _LOOP.run_until_complete(asyncio.sleep(0))          # (a cancelled future runs its callbacks in the next loop iteration)
+        self._note_sent()
+
     def reconnect(self):
         """what RSocketClient.connect() does, on every (re)connect, before anything can be queued on the new connection"""
         self.archived = self.sent()
@@ -136,6 +154,14 @@ class RealLease:
         if self.dropped & cur:
             return ('C14.no_request_before_first_lease', 'requests %s, held back when the previous connection ended, were sent on the new one' % sorted(
                 self.dropped & cur))
+        from rsocket.frame import RequestResponseFrame, RequestStreamFrame, RequestChannelFrame, RequestFireAndForgetFrame
+        started = set()
+        for f in list(self.client._send_queue._queue):
+            if isinstance(f, (RequestResponseFrame, RequestStreamFrame, RequestChannelFrame, RequestFireAndForgetFrame)):
+                started.add(f.stream_id)
+            elif f.stream_id and f.stream_id not in started:
+                return ('C08.first_frame_is_request', '%s of stream %d entered the send queue before the stream\'s request frame (still waiting for a lease)' % (
+                    type(f).__name__, f.stream_id))
         if len(set(s)) != len(s) or set(s) & set(p):
             return ('C14.each_request_sent_at_most_once', 'send queue %s, held back %s' % (s, p))
         per = {}
@@ -174,7 +200,9 @@ class RealLease:
 
     @staticmethod
     def _rids(frames):
-        return [(f.data or b'\xff')[0] for f in frames]
+        from rsocket.frame import RequestResponseFrame, RequestStreamFrame, RequestChannelFrame, RequestFireAndForgetFrame
+        return [(f.data or b'\xff')[0] for f in frames
+                if isinstance(f, (RequestResponseFrame, RequestStreamFrame, RequestChannelFrame, RequestFireAndForgetFrame))]
 
     def sent(self):
         return self.archived + self._rids(list(self.client._send_queue._queue))
@@ -205,6 +233,8 @@ def _apply(real, name, args, before):
         real.tick()
     elif name == 'Reconnect':
         real.reconnect()
+    elif name == 'AppActsOnHeldRequest':
+        real.act_on_held(int(args[0]))
     else:
         raise common.Machinery('unknown Lease action %r' % name)
     return None
@@ -223,9 +253,9 @@ def _compare(real, exp, obs):
 
 def model_check(v, thorough):
     from concurrent.futures import ThreadPoolExecutor
-    cfgs = ['Lease.cfg', 'Lease_q2.cfg', 'Lease_reconnect.cfg', 'Lease_f27.cfg'] + (['Lease_wide.cfg'] if thorough else [])
-    # Lease_f27: the application acts on an interaction whose request is still held back, AS IMPLEMENTED (open finding F27 of C08):
-    # NothingOvertakesItsRequest must be REFUTED - the day it holds the finding is obsolete (and the model stale)
+    cfgs = ['Lease.cfg', 'Lease_q2.cfg', 'Lease_reconnect.cfg', 'Lease_acts.cfg', 'Lease_f27.cfg'] + (['Lease_wide.cfg'] if thorough else [])
+    # Lease_f27: control configuration - the behaviour before the fix of finding F27 (frames of a stream overtake its held
+    # request): NothingOvertakesItsRequest must be REFUTED (the invariant is not vacuous); Lease_acts is the fixed behaviour
     expect = {'Lease_f27.cfg': 'NothingOvertakesItsRequest'}
 
     def one(c):
@@ -257,5 +287,7 @@ def check(v):
         graphreplay.replay(v, 'Lease', 'Lease_q2.cfg', RealLeaseQ2, _apply, _compare, _state, prop='C14', label='leaseq2', describe=desc)
         # a lease belongs to the connection it arrived on: the same, with a reconnect at every point
         graphreplay.replay(v, 'Lease', 'Lease_reconnect.cfg', RealLease, _apply, _compare, _state, prop='C14', label='leasereconnect', describe=desc)
+        # the application cancels / asks for more on interactions whose request is still held back: nothing overtakes the request
+        graphreplay.replay(v, 'Lease', 'Lease_acts.cfg', RealLease, _apply, _compare, _state, prop='C14', label='leaseacts', describe=desc)
     finally:
         rsocket.lease.datetime = saved
